@@ -478,7 +478,12 @@ func e2eChecks(c *ctx, which string) {
 					q.Prefilter = pf
 				}
 			}
+			// io.Reader lets a store return fewer bytes than asked: every third query runs over such a store
+			if qi%3 == 2 {
+				h.Env.Data.ShortReads = 1 + r.IntN(48)
+			}
 			out := h.Env.Query(q)
+			h.Env.Data.ShortReads = 0
 			got := idsOf(out.Rows)
 			fsOut := RunQuery(fsEng, q)
 			gotFS := idsOf(fsOut.Rows)
